@@ -360,10 +360,8 @@ def mapVals (f : List XVal → List XVal) (slots : List Slot) : List Slot :=
 def resize (ns ne : Int) (s : Store) : Option Store :=
   match s.dt with
   | some d =>
-    let a := roundDiv (ns - s.start) d
-    let b := roundDiv (ne - s.stop) d
     some { s with start := ns, stop := ne,
-                  slots := mapVals (fun v => shiftEnd b (shiftStart a v)) s.slots }
+                  slots := mapVals (resize1 d s.start s.stop ns ne) s.slots }
   | none =>
     if ns < s.start ∨ s.stop < ne then none else
     let a : Int := (bisectLeft s.times ns : Int) - (bisectLeft s.times s.start : Int)
@@ -371,15 +369,25 @@ def resize (ns ne : Int) (s : Store) : Option Store :=
     some { s with start := ns, stop := ne,
                   slots := mapVals (fun v => shiftEnd b (shiftStart a v)) s.slots }
 
-/-- value of an equidistant series with first stamp `start` at the stamp `start + i·d`
-    (NaN outside) — the observation `C11_resize_keeps_values` is about -/
-def valueAt (start d : Int) (v : List XVal) (t : Int) : XVal :=
-  if (t - start) % d = 0 ∧ 0 ≤ (t - start) / d then v.getD ((t - start) / d).toNat XVal.nan
-  else XVal.nan
+/-- `v[i]` for an integer index, NaN outside the list -/
+def getZ (v : List XVal) (i : Int) : XVal := if 0 ≤ i then v.getD i.toNat XVal.nan else XVal.nan
 
-/-- the window arithmetic of `resize` on a single series: what the *specification* asks for
-    (`[ns, ne]` on the old grid), used to state F26 -/
-def resizeSpecLen (ns ne d : Int) : Int := (ne - ns) / d + 1
+/-- value of an equidistant series with first stamp `start` at the stamp `t` (NaN off the grid and
+    outside the series) — the observation `C11_resize_keeps_values` is about -/
+def valueAt (start d : Int) (v : List XVal) (t : Int) : XVal :=
+  if (t - start) % d = 0 then getZ v ((t - start) / d) else XVal.nan
+
+/-- what `resize` does to one series of an equidistant store -/
+def resize1 (d start stop ns ne : Int) (v : List XVal) : List XVal :=
+  shiftEnd (roundDiv (ne - stop) d) (shiftStart (roundDiv (ns - start) d) v)
+
+/-- a sequence of `resize` calls -/
+def resizeSeq : List (Int × Int) → Store → Option Store
+  | [], s => some s
+  | w :: ws, s =>
+    match resize w.1 w.2 s with
+    | none => none
+    | some s' => resizeSeq ws s'
 
 /-! ## CSV: `%f` printing and parsing -/
 
